@@ -21,11 +21,12 @@ Theorem C02_client_S0_nonvacuous :
 Proof. exact demo_in_S0. Qed.
 Print Assumptions C02_client_S0_nonvacuous.
 
-(** The full statement (every schedule) is false of the faithful model: finding F16. *)
-Theorem C02_client_refuted_all_schedules_F16 :
-  wrs (tr (run [Start; Reconn; Drop; Reconn; Send 7 true; PumpReq; PumpReady] (init 0 0))) = [7; 7].
-Proof. exact C02_refuted_S1_F16. Qed.
-Print Assumptions C02_client_refuted_all_schedules_F16.
+(** The schedule that refuted this for all schedules on the unrepaired code (finding F16: a reconnection racing a send
+    wrote the same CALL twice) now writes the CALL once. *)
+Theorem C02_client_F16_schedule_writes_once :
+  wrs (tr (run [Start; Reconn; Drop; Reconn; Send 7 true; PumpReq; PumpReady] (init 0 0))) = [7].
+Proof. exact F16_schedule_writes_once. Qed.
+Print Assumptions C02_client_F16_schedule_writes_once.
 
 (** every schedule: the outstanding request is the queue head (peek, not pop, while outstanding) *)
 Theorem C02_client_outstanding_is_head : forall c t ls, Forall wf_lab ls ->
